@@ -62,7 +62,14 @@ func boundsRun(c *Ctx, entries []*ssa.Function, hooks *bounds.Hooks) int {
 				}
 			}()
 			t1 := time.Now()
-			eng := bounds.New(p, cfg, hooks)
+			ecfg := cfg
+			if k, ok := entryK[core.FuncName(fn)]; ok && c.Tier != "thorough" {
+				ecfg.K = k
+			}
+			if ks := os.Getenv("RTPCHECK_K"); ks != "" {
+				fmt.Sscan(ks, &ecfg.K)
+			}
+			eng := bounds.New(p, ecfg, hooks)
 			eng.AnalyzeEntry(fn)
 			results[i] = result{eng: eng, dt: time.Since(t1).Seconds()}
 		}(i, fn)
@@ -139,6 +146,11 @@ func boundsRun(c *Ctx, entries []*ssa.Function, hooks *bounds.Hooks) int {
 		len(uniq), len(nfuncs), n, totalEn, totalFe, totalSt, time.Since(t0).Seconds(), cfg.K, cfg.MaxDepth)
 	return n
 }
+
+// entryK lowers the disjunct cap for entries whose path count makes K=64 too slow for the quick
+// tier (their hard obligations are non-linear and listed in the assumed table either way; the
+// thorough tier uses the full precision).
+var entryK = map[string]int{"codecs.(*AV1Payloader).Payload": 16}
 
 // boundsFor runs the BOUNDS engine over the given entry points with the property's contracts.
 var boundsFor = func(c *Ctx, prop string, entries []*ssa.Function) {
